@@ -30,12 +30,13 @@ import (
 	internalcache "github.com/semihalev/sdns/internal/cache"
 	"github.com/semihalev/sdns/internal/dnsutil"
 	"github.com/semihalev/sdns/middleware"
+	"github.com/semihalev/sdns/middleware/resolver/dnssec"
 )
 
 type vC01DLog struct {
 	mu     sync.Mutex
-	served []int // hop numbers, in the order they were served
-	stray  int   // questions other than the one being resolved
+	served []*dns.Msg // the scripted messages, in the order they were served
+	stray  int        // questions no script covers
 }
 
 type vC01DServer struct {
@@ -43,8 +44,8 @@ type vC01DServer struct {
 	stop func()
 }
 
-// one listener that answers the question under resolution with a copy of resp, and logs it as hop
-func vC01DStart(log *vC01DLog, hop int, qname string, qtype uint16, resp *dns.Msg) (*vC01DServer, bool) {
+// one listener per zone: answers (name, qtype) with a copy of the message scripted for that name, and logs it
+func vC01DStart(log *vC01DLog, qtype uint16, script map[string]*dns.Msg) (*vC01DServer, bool) {
 	pc, err := net.ListenPacket("udp", "127.0.0.1:0")
 	if err != nil {
 		return nil, false
@@ -57,14 +58,14 @@ func vC01DStart(log *vC01DLog, hop int, qname string, qtype uint16, resp *dns.Ms
 		}
 		q := r.Question[0]
 		var m *dns.Msg
-		if strings.EqualFold(q.Name, qname) && q.Qtype == qtype {
+		if resp := script[strings.ToLower(q.Name)]; resp != nil && q.Qtype == qtype {
 			m = resp.Copy()
 			m.Id = r.Id
 			m.Question = []dns.Question{q}
 			m.Response = true
 			m.Authoritative = len(m.Answer) > 0 || m.Rcode == dns.RcodeNameError
 			log.mu.Lock()
-			log.served = append(log.served, hop)
+			log.served = append(log.served, resp)
 			log.mu.Unlock()
 		} else {
 			m = new(dns.Msg)
@@ -174,6 +175,15 @@ func vC01DescentCase(rnd *rand.Rand, tr *vC01Trace, caseNo int) {
 	genuine := true
 	cd := rnd.Intn(10) == 0
 
+	// ---- QNAME minimisation: cfg.QnameMinLevel (0 = off, then Resolve is also told nomin, as its internal callers do) ----
+	qmin := []int{0, 5, 5, 2}[rnd.Intn(4)]
+	nomin := qmin == 0
+	deep := 0 // extra labels in front of the name: the names in between are empty non-terminals of the answering zone
+	if qmin > 0 {
+		deep = rnd.Intn(3)
+		kinds = append(kinds, fmt.Sprintf("qmin%d+deep%d", qmin, deep))
+	}
+
 	// ---- the question and the answering zone's response ----
 	qname, qtype := x.sub("www", z.name), dns.TypeA
 	shape := rnd.Intn(10)
@@ -199,7 +209,17 @@ func vC01DescentCase(rnd *rand.Rand, tr *vC01Trace, caseNo int) {
 		qname = z.name // the apex
 		kinds = append(kinds, "a-apex")
 	}
+	for j := 0; j < deep; j++ {
+		qname = x.sub([]string{"a", "b"}[j], qname)
+	}
 	x.fillEnv(qname)
+	// the root has no DS RRset: its sub-query is answered from the scripted Store with an empty message (lookupDS: "DS or
+	// NSEC records not found") instead of leaking to the listeners as a stray question
+	if x.ds[vC01StoreKey(".", dns.TypeDS, false)] == nil {
+		rootDS := x.newMsg(".", dns.TypeDS)
+		x.ds[vC01StoreKey(".", dns.TypeDS, false)] = rootDS
+		x.ds[vC01StoreKey(".", dns.TypeDS, true)] = rootDS
+	}
 	final := x.newMsg(qname, qtype)
 	switch {
 	case negative && qtype == dns.TypeA:
@@ -259,6 +279,7 @@ func vC01DescentCase(rnd *rand.Rand, tr *vC01Trace, caseNo int) {
 			}
 		}
 	}
+	tamperKind := -1
 	if rnd.Intn(2) == 0 {
 		cut := 0
 		if last > 0 {
@@ -273,10 +294,12 @@ func vC01DescentCase(rnd *rand.Rand, tr *vC01Trace, caseNo int) {
 			}
 			hops[cut].Ns = out
 		}
-		switch tk := rnd.Intn(12); tk {
-		case 11: // the last response replaced by a bare rcode: NXDOMAIN (or REFUSED) with all sections empty
+		tk := rnd.Intn(12)
+		tamperKind = tk
+		switch tk {
+		case 11: // the last response replaced by a bare rcode: NXDOMAIN, NOERROR (or an upstream failure) with all sections empty
 			final.Answer, final.Ns = nil, nil
-			final.Rcode = []int{dns.RcodeNameError, dns.RcodeNameError, dns.RcodeRefused}[rnd.Intn(3)]
+			final.Rcode = []int{dns.RcodeNameError, dns.RcodeNameError, dns.RcodeSuccess, dns.RcodeSuccess, dns.RcodeRefused, dns.RcodeYXDomain}[rnd.Intn(6)]
 			genuine = false
 			kinds = append(kinds, "t:bare-"+strings.ToLower(dns.RcodeToString[final.Rcode]))
 		case 0: // one record altered, signature kept
@@ -397,6 +420,88 @@ func vC01DescentCase(rnd *rand.Rand, tr *vC01Trace, caseNo int) {
 		}
 	}
 
+	// a tamper that touched the last response only says nothing about a walk that never got as far as that response
+	// (a minimised walk ended by the zone's own signed denial of a name in between, or by a failure above)
+	finalOnly := !genuine && (tamperKind == 11 || tamperKind == 0 || tamperKind == 1 || tamperKind == 6 || tamperKind == 8 || tamperKind == 9 || tamperKind == 10)
+	forged := map[*dns.Msg]bool{} // forged answers to the minimised questions in between
+
+	// ---- what each zone's server says to which question ----
+	// not minimised: every server is asked the name itself. Minimised: zone i's server is asked the name cut to one label
+	// more than the zone has — the child's name, for which it has the same referral — and the answering zone's server is
+	// asked every name between its apex and the name: empty non-terminals, answered as drawn below.
+	scripts := make([]map[string]*dns.Msg, len(x.zones))
+	var allMsgs []*dns.Msg
+	var allSubjects []string
+	var allNegs []bool
+	aggr := map[*dns.Msg]bool{}
+	add := func(i int, m *dns.Msg, subject string, neg bool) {
+		if scripts[i] == nil {
+			scripts[i] = map[string]*dns.Msg{}
+		}
+		scripts[i][strings.ToLower(m.Question[0].Name)] = m
+		allMsgs, allSubjects, allNegs = append(allMsgs, m), append(allSubjects, subject), append(allNegs, neg)
+	}
+	for i := range x.zones {
+		add(i, hops[i], subjects[i], negs[i])
+	}
+	if qmin > 0 {
+		for i := 0; i < last; i++ {
+			c := x.zones[i+1]
+			if strings.EqualFold(c.name, qname) {
+				continue
+			}
+			ref := x.newMsg(c.name, qtype)
+			ref.Rcode, ref.Ns, ref.Extra = hops[i].Rcode, hops[i].Ns, hops[i].Extra
+			add(i, ref, c.name, false)
+		}
+		labels := dns.SplitDomainName(qname)
+		for k := len(labels) - 1; k >= 1; k-- {
+			n := strings.Join(labels[k:], ".") + "."
+			if dns.CountLabel(n) <= dns.CountLabel(z.name) || !dns.IsSubDomain(z.name, n) {
+				continue
+			}
+			im := x.newMsg(n, qtype)
+			neg := false
+			switch ik := rnd.Intn(14); {
+			case ik < 5: // an empty non-terminal: NODATA with the zone's SOA and a signed NSEC
+				im.Ns = append(x.soa(z), x.nsec(z, z.name, dns.TypeSOA, dns.TypeRRSIG, dns.TypeNSEC)...)
+				kinds = append(kinds, "i:ent")
+			case ik == 5:
+				kinds = append(kinds, "i:bare-noerror")
+			case ik == 6:
+				im.Rcode = dns.RcodeNameError
+				kinds = append(kinds, "i:bare-nxdomain")
+			case ik == 7:
+				im.Rcode = dns.RcodeRefused
+				kinds = append(kinds, "i:bare-refused")
+			case ik == 8: // data at the name in between
+				im.Answer = x.sign(z, z.zsk, &dns.A{Hdr: dns.RR_Header{Name: n, Rrtype: dns.TypeA, Class: dns.ClassINET, Ttl: 300}, A: []byte{192, 0, 2, 99}})
+				kinds = append(kinds, "i:answer")
+			case ik == 9 || ik == 12: // the zone's signer denies the name in between (RFC 8020: and with it everything below)
+				im.Rcode = dns.RcodeNameError
+				im.Ns = append(x.soa(z), x.nsec(z, z.name, dns.TypeSOA, dns.TypeRRSIG, dns.TypeNSEC)...)
+				neg = true
+				kinds = append(kinds, "i:nxdomain-signed")
+			case ik == 10 || ik == 13: // forged: a name error for the name in between with an unsigned SOA
+				im.Rcode = dns.RcodeNameError
+				im.Ns = vC01StripSigs(append(x.soa(z), x.nsec(z, z.name, dns.TypeSOA, dns.TypeRRSIG, dns.TypeNSEC)...))
+				neg = true
+				forged[im] = true
+				kinds = append(kinds, "i:nxdomain-unsigned")
+			default: // forged: the zone's old denial replayed, signatures expired
+				im.Rcode = dns.RcodeNameError
+				im.Ns = x.soa(z)
+				if z.signed {
+					im.Ns = x.resignAll(append(x.soa(z), x.nsec(z, z.name, dns.TypeSOA, dns.TypeRRSIG, dns.TypeNSEC)...), z.zsk, x.now-48*3600, x.now-24*3600)
+				}
+				neg = true
+				forged[im] = true
+				kinds = append(kinds, "i:nxdomain-expired")
+			}
+			add(last, im, n, neg)
+		}
+	}
+
 	// ---- listeners, resolver ----
 	log := &vC01DLog{}
 	byGlue := map[string]string{}
@@ -407,7 +512,7 @@ func vC01DescentCase(rnd *rand.Rand, tr *vC01Trace, caseNo int) {
 		}
 	}
 	for i := range x.zones {
-		s, ok := vC01DStart(log, i, qname, qtype, hops[i])
+		s, ok := vC01DStart(log, qtype, scripts[i])
 		if !ok {
 			stopAll()
 			tr.emit(map[string]any{"k": "descent-infra", "inconclusive": true, "desc": "bind failure"})
@@ -422,6 +527,7 @@ func vC01DescentCase(rnd *rand.Rand, tr *vC01Trace, caseNo int) {
 	cfg.DNSSEC = "on"
 	cfg.Directory = os.Getenv("VERIF_SCRATCH")
 	cfg.Maxdepth = 30
+	cfg.QnameMinLevel = qmin
 	cfg.Timeout.Duration = 1500 * time.Millisecond
 	cfg.IPv6Access = false
 	r := NewResolver(cfg)
@@ -439,9 +545,31 @@ func vC01DescentCase(rnd *rand.Rand, tr *vC01Trace, caseNo int) {
 	for _, zz := range x.zones {
 		_ = x.w.name(zz.name)
 	}
-	envCoq := x.descEnv(r, rk, hops, subjects, negs)
+	envCoq := x.descEnv(r, rk, allMsgs, allSubjects, allNegs)
+	// which of the minimised name errors authority() would mark as eligible for aggressive use (RFC 8198) — the RFC 8020
+	// cut needs that mark — computed as authority() computes it, with the exported evaluators
+	for i, m := range allMsgs {
+		if !allNegs[i] || m.Rcode != dns.RcodeNameError || m == final || !z.signed {
+			continue
+		}
+		pq := dns.Question{Name: allSubjects[i], Qtype: qtype, Qclass: dns.ClassINET}
+		nsec3Set := dnsutil.FilterRRsToZone(dnsutil.ExtractRRSet(m.Ns, "", dns.TypeNSEC3), z.name)
+		nsecSet := dnsutil.FilterRRsToZone(dnsutil.ExtractRRSet(m.Ns, "", dns.TypeNSEC), z.name)
+		ok := false
+		switch {
+		case len(nsec3Set) > 0:
+			if res, err := dnssec.EvaluateAggressiveNSEC3(pq, z.name, nsec3Set, newResolverAggressiveProofWork(context.Background(), r.cryptoLimiter)); err == nil && res.Rcode == m.Rcode {
+				ok = true
+			}
+		case len(nsecSet) > 0:
+			if res, err := dnssec.EvaluateAggressiveNSEC(pq, z.name, nsecSet); err == nil && res.Rcode == m.Rcode {
+				ok = true
+			}
+		}
+		aggr[m] = ok && !dnsutil.HasNSEC3OptOut(m.Ns, z.name)
+	}
 
-	ask := func() (string, *dns.Msg, error, []int) {
+	ask := func() (string, *dns.Msg, error, []*dns.Msg) {
 		log.mu.Lock()
 		log.served = nil
 		log.mu.Unlock()
@@ -451,11 +579,11 @@ func vC01DescentCase(rnd *rand.Rand, tr *vC01Trace, caseNo int) {
 		req.CheckingDisabled = cd
 		ctx, cancel := context.WithTimeout(middleware.WithResponseMeta(context.Background(), &middleware.ResponseMeta{}), 8*time.Second)
 		defer cancel()
-		out, err := r.Resolve(ctx, req, r.rootServers, true, 30, 0, true, nil)
+		out, err := r.Resolve(ctx, req, r.rootServers, true, 30, 0, nomin, nil)
 		log.mu.Lock()
-		// the same listener served twice in a row = a retransmission after a lost / late datagram (once a response is
-		// processed the walk asks a different zone's server or ends): one step of the descent, not two
-		var served []int
+		// the same scripted message served twice in a row = a retransmission after a lost / late datagram (once a response
+		// is processed the walk asks a different question or a different zone's server, or ends): one step, not two
+		var served []*dns.Msg
 		for _, h := range log.served {
 			if len(served) == 0 || served[len(served)-1] != h {
 				served = append(served, h)
@@ -483,28 +611,59 @@ func vC01DescentCase(rnd *rand.Rand, tr *vC01Trace, caseNo int) {
 		tr.emit(map[string]any{"k": "descent-infra", "inconclusive": true, "desc": fmt.Sprint(err1, " / ", err2, " world=", kinds, " served=", tr1, tr2, " stray=", log.stray)})
 		return
 	}
-	msgList := func(l []int) string {
+	msgList := func(l []*dns.Msg) string {
 		var s []string
 		for _, h := range l {
-			s = append(s, fmt.Sprintf("m%d", x.msgs[hops[h]]))
+			s = append(s, fmt.Sprintf("m%d", x.msgs[h]))
 		}
 		return "[" + strings.Join(s, ";") + "]"
 	}
+	servedDesc := func(l []*dns.Msg) []string {
+		var s []string
+		for _, h := range l {
+			s = append(s, fmt.Sprintf("%s %s", h.Question[0].Name, dns.RcodeToString[h.Rcode]))
+		}
+		return s
+	}
 	body := fmt.Sprintf("CaseDescent E %s %d %s %s %s [%s] %s %s", qn, qtype, vC01Bool(cd), msgList(tr1), o1, strings.Join(cacheObs, ";"), msgList(tr2), o2)
+	if qmin > 0 {
+		var ag []string
+		for _, m := range allMsgs {
+			if aggr[m] {
+				ag = append(ag, fmt.Sprint(x.msgs[m]))
+			}
+		}
+		body = fmt.Sprintf("CaseDescentMin E %d %s [%s] %s %d %s %s %s [%s] %s %s", qmin, vC01Bool(nomin), strings.Join(ag, ";"), qn, qtype, vC01Bool(cd),
+			msgList(tr1), o1, strings.Join(cacheObs, ";"), msgList(tr2), o2)
+	}
 
 	goFail := ""
+	genuineAll := genuine
 	for pass, oe := range []struct {
-		out *dns.Msg
-		err error
-	}{{out1, err1}, {out2, err2}} {
+		out    *dns.Msg
+		err    error
+		served []*dns.Msg
+	}{{out1, err1, tr1}, {out2, err2, tr2}} {
 		if oe.err != nil || oe.out == nil {
 			continue
 		}
 		which := []string{"first walk", "walk from the delegation cache"}[pass]
+		// ground truth for THIS walk: nothing it was served (or, for referrals, had filed earlier) was altered
+		sawFinal, sawForged := false, false
+		for _, m := range oe.served {
+			if m == final {
+				sawFinal = true
+			}
+			if forged[m] && z.signed {
+				sawForged = true
+			}
+		}
+		genuine := !sawForged && (genuineAll || (finalOnly && !sawFinal))
 		if oe.out.AuthenticatedData && !(chainSecure && genuine && len(x.anchors) > 0 && !cd) {
 			goFail = which + ": AD on a reply that is not authentic up to the anchor"
 		}
-		if !cd && chainSecure && !genuine && len(x.anchors) > 0 && (len(oe.out.Answer) > 0 || len(oe.out.Ns) > 0 || oe.out.Rcode == dns.RcodeNameError) {
+		// a reply the client reads as an answer or as a denial: NOERROR (data or NODATA), NXDOMAIN, or any records at all
+		if !cd && chainSecure && !genuine && len(x.anchors) > 0 && (len(oe.out.Answer) > 0 || len(oe.out.Ns) > 0 || oe.out.Rcode == dns.RcodeNameError || oe.out.Rcode == dns.RcodeSuccess) {
 			goFail = which + ": altered data accepted under a signed chain"
 		}
 		if !cd && chainSecure && genuine && plain && len(x.anchors) > 0 && !oe.out.AuthenticatedData {
@@ -514,7 +673,7 @@ func vC01DescentCase(rnd *rand.Rand, tr *vC01Trace, caseNo int) {
 			goFail = which + ": unvalidated data served without a trust anchor"
 		}
 	}
-	desc := map[string]any{"world": kinds, "qname": qname, "qtype": dns.TypeToString[qtype], "cd": cd, "served_first": tr1, "served_again": tr2,
+	desc := map[string]any{"world": kinds, "qname": qname, "qtype": dns.TypeToString[qtype], "cd": cd, "served_first": servedDesc(tr1), "served_again": servedDesc(tr2),
 		"first": fmt.Sprint(err1), "again": fmt.Sprint(err2), "delegation_cache": cacheDesc, "stray_questions": log.stray, "chain_secure": chainSecure, "genuine": genuine}
 	if out1 != nil && err1 == nil {
 		desc["first"] = fmt.Sprintf("%s AD=%v %v", dns.RcodeToString[out1.Rcode], out1.AuthenticatedData, vC01Pres(out1.Answer))
